@@ -130,10 +130,11 @@ Qed.
 
 Lemma good_step d ap fwd l v : good d v -> Forall (good d) l -> Forall (good d) (path_step ap fwd l v).
 Proof.
-  intros Hv Hl. unfold path_step. destruct fwd; [destruct ap|].
+  intros Hv Hl. assert (Hr : Forall (good d) (remove_str v l)) by now apply Forall_filter.
+  unfold path_step. destruct fwd; [destruct ap|].
   - apply Forall_app. split; [assumption|constructor; [assumption|constructor]].
   - constructor; assumption.
-  - now apply Forall_filter.
+  - assumption.
 Qed.
 
 (* ------------------------------------------------------------ the main computation *)
@@ -195,15 +196,37 @@ Qed.
 
 Lemma result_prepend d v old :
   result_list false true d v old = v :: remove_str v (uniq (elems d old)).
-Proof. reflexivity. Qed.
+Proof.
+  unfold result_list, path_step. cbn [uniq]. now rewrite uniq_remove_str, remove_str_idem.
+Qed.
+
+(* one law for envAppend, whether or not the value is already an element: it comes last, once *)
+Lemma result_append d v old :
+  result_list true true d v old = remove_str v (uniq (elems d old)) ++ [v].
+Proof.
+  unfold result_list, path_step. rewrite uniq_app_fresh.
+  - now rewrite uniq_remove_str.
+  - rewrite remove_str_In. intros [_ N]. now apply N.
+Qed.
 
 Lemma result_append_fresh d v old :
   ~ In v (elems d old) -> result_list true true d v old = uniq (elems d old) ++ [v].
-Proof. intro H. unfold result_list, path_step. now apply uniq_app_fresh. Qed.
+Proof.
+  intro H. rewrite result_append, remove_str_notin; [reflexivity|]. now rewrite uniq_In.
+Qed.
 
-Lemma result_append_present d v old :
-  In v (elems d old) -> result_list true true d v old = uniq (elems d old).
-Proof. intro H. unfold result_list, path_step. now apply uniq_app_present. Qed.
+Lemma last_opt_snoc {A} (l : list A) (x : A) : last_opt (l ++ [x]) = Some x.
+Proof.
+  induction l as [|a l IH]; [reflexivity|]. cbn [app last_opt].
+  destruct (l ++ [x]) eqn:E; [now destruct l|exact IH].
+Qed.
+
+(* the pinned code (before the fix of D8): a present element stayed where it was *)
+Definition result_list_pinned (ap fwd : bool) (d : ascii) (v old : str) : list str :=
+  uniq (path_step_pinned ap fwd (elems d old) v).
+Lemma result_append_present_pinned d v old :
+  In v (elems d old) -> result_list_pinned true true d v old = uniq (elems d old).
+Proof. intro H. unfold result_list_pinned, path_step_pinned. now apply uniq_app_present. Qed.
 
 Lemma result_reverse ap d v old :
   result_list ap false d v old = remove_str v (uniq (elems d old)).
@@ -216,10 +239,8 @@ Lemma result_others ap fwd d v old :
   remove_str v (result_list ap fwd d v old) = remove_str v (uniq (elems d old)).
 Proof.
   destruct fwd; [destruct ap|].
-  - destruct (in_dec str_eq_dec v (elems d old)) as [Hin|Hn].
-    + now rewrite result_append_present.
-    + rewrite result_append_fresh by assumption. rewrite remove_str_app. simpl.
-      rewrite str_eqb_refl. simpl. now rewrite app_nil_r.
+  - rewrite result_append, remove_str_app, remove_str_idem. simpl.
+    rewrite str_eqb_refl. simpl. now rewrite app_nil_r.
   - rewrite result_prepend. simpl. rewrite str_eqb_refl. simpl. apply remove_str_idem.
   - rewrite result_reverse. apply remove_str_idem.
 Qed.
